@@ -191,7 +191,7 @@ def run(ck):
             for q in ms:
                 q['prog'] = i
                 q['src'] = T.to_nano(T.prog_ast(q['sexp']))
-                q['cause'] = T.root_cause(q['rule'], progs[i]['fns'][q['fn']], q['path'])
+                q['cause'] = T.root_cause(q['rule'], progs[i]['fns'][q['fn']], q['path'], q['arg'])
                 items.append(q)
         verd2 = T.probe_tc(probe, [q['src'] for q in items])
         by_cause = collections.defaultdict(list)
